@@ -53,8 +53,9 @@
  *    character.
 
  * @details
- *    Note that C11 allows only writing dmax-1 character. We need to work
- *    with the system fgets() passing it dmax+1.
+ *    Note that C11 allows only writing dmax-1 character: the system fgets()
+ *    is passed dmax, and a line of exactly dmax-1 characters is recognized
+ *    by looking at the next character of the stream.
  *    In any case, gets_s first finishes reading and discarding the characters
  *    from stdin until new-line character, end-of-file condition, or read
  *    error before calling the constraint handler.
@@ -75,8 +76,7 @@
  *                        If the resulting concatenated string is less
  *                        than dmax, the remaining slack space is nulled.
  * @param[in]   dmax      restricted maximum length of the resulting dest,
- *                        including the null. it may temp. write dmax+1, but
- *                        always return max dmax.
+ *                        including the null.
  *
  * @pre  dest shall not be a null pointer
  * @pre  dmax shall not equal zero
@@ -146,20 +146,22 @@ EXPORT char *_gets_s_chk(char *restrict dest, rsize_t dmax,
     }
 
     errno = 0;
-    ret = fgets(dest, dmax + 1, stdin);
+    /* at most dmax-1 characters and the terminating null: never behind dest[dmax-1] */
+    ret = fgets(dest, dmax, stdin);
 
     if (likely(ret)) {
         rsize_t len = (rsize_t)strnlen(dest, dmax);
         if (len > 0 && dest[len - 1] == '\n') {
             dest[len - 1] = 0;
-        } else if (len > (rsize_t)(dmax - 1)) {
-            ret = NULL;
-            goto nospc;
-        } else if (feof(stdin)) /* dead code: feof returns NULL */
-            ;
-        else if (len == (rsize_t)(dmax - 1) && dest[len] == '\0') {
-            ret = NULL;
-            goto nospc;
+        } else if (len == (rsize_t)(dmax - 1) && !feof(stdin)) {
+            /* dest is full: the line fits only if it ends right here */
+            int c = getc(stdin);
+            if (c == EOF && len == 0) {
+                ret = NULL;
+            } else if (c != '\n' && c != EOF) {
+                ret = NULL;
+                goto nospc;
+            }
         }
     } else {
         if (!feof(stdin) && errno == 0) { /* closed? */
